@@ -111,6 +111,31 @@ def run_case(c):
             except Exception:
                 o['roundtrip'] = False
             ev['obs'] = o
+        elif op == 'gensym':
+            from quantity import QuantityMeta
+            o = dict(st='err', codes=[], registered=False)
+            try:
+                bases = {}
+                for k, it in enumerate(c['items']):
+                    sym = ''.join(chr(x) for x in it['codes'])
+                    if sym not in bases:
+                        bases[sym] = QuantityMeta('GB%d' % len(bases), (Quantity,), {}, ref_unit_symbol=sym)
+                term = None
+                for it in c['items']:
+                    part = bases[''.join(chr(x) for x in it['codes'])] ** it['e']
+                    term = part if term is None else term * part
+                if c['how'] == 'ref':
+                    cls = QuantityMeta('GD', (Quantity,), {}, define_as=term)
+                    u = cls.ref_unit
+                else:
+                    cls = QuantityMeta('GD', (Quantity,), {}, define_as=term, ref_unit_symbol='gdref')
+                    args = [b.ref_unit for b in (bases[''.join(chr(x) for x in it['codes'])] for it in c['items'])]
+                    u = cls.derive_unit_from(*args) if False else None
+                    u = cls.ref_unit
+                o.update(st='ok', codes=codes(u.symbol), registered=(Unit(u.symbol) is u and Quantity('1 ' + u.symbol).unit is u))
+            except Exception as exc:
+                o['exc'] = '%s: %s' % (type(exc).__name__, str(exc)[:80])
+            ev['obs'] = o
         elif op == 'strunit':
             text = ''.join(chr(x) for x in c['codes'])
             try:
